@@ -57,6 +57,13 @@ class AggHarness:
         _fresh_database(database, DMdl)
         self.database = database
         self.DMdl = DMdl
+        self._new_process()
+
+    def _new_process(self) -> None:
+        """a new Aggregator (with handlers) on the database as it is"""
+        from openpectus.aggregator.aggregator import Aggregator
+        from openpectus.aggregator.aggregator_message_handlers import AggregatorMessageHandlers
+        from openpectus.protocol.aggregator_dispatcher import AggregatorDispatcher
         publisher = MagicMock()
         for name in ("publish_process_units_changed", "publish_control_state_changed", "publish_method_state_changed",
                      "publish_run_log_changed", "publish_error_log_changed", "publish_method_changed",
@@ -68,6 +75,21 @@ class AggHarness:
         self.handlers = AggregatorMessageHandlers(self.agg)
         self._eids: dict[int, str] = {}
         self.engine_id = self.eid(0)
+
+    def restart(self, graceful: bool = True) -> None:
+        """the aggregator process ends — `Aggregator.shutdown()` as the server's lifespan does it when graceful,
+        nothing when it crashes — and a new process works on the same database"""
+        if graceful:
+            self.agg.shutdown()
+        self._new_process()
+
+    def contribute(self, user: int, engine: int = 0) -> bool:
+        """a user's command for the engine arrived (`FromFrontend.add_contributor`, the tail of excute_command /
+        excute_control_button_command); False if the engine is not registered (the routes answer 404 then)"""
+        if self.engine_data(engine) is None:
+            return False
+        run(self.agg.from_frontend.add_contributor(self.eid(engine), f"user-{user}", f"User {user}"))
+        return True
 
     # -- messages ----------------------------------------------------------------------
     # `engine` = index of the engine the message comes from (0 = the default engine; other indexes are further
